@@ -149,6 +149,8 @@ def rw_for_by_ref(text):
 
 
 TOTAL_VARIANTS = set()
+# (trait, method, type): the templates weave the PROVIDED method `trait::method` inside a block of `type` (R4b: the provided method at Self = type)
+TRAIT_DEFAULTS_AT_TYPE = set()
 
 
 def read_template(path):
@@ -168,10 +170,16 @@ def read_template(path):
     while out and out[-1] == '' and path.endswith('.inc'):
         out.pop()
     out = expand_foreach(out, path)
+    hdr_ = ''
     for ln in out:
         m = re.match(r'\s*//@fn\s+(.*?)\s*::\s*(\w+)\b.*\brename=\w+_total\b', ln)
         if m:
             TOTAL_VARIANTS.add((m.group(1).strip(), m.group(2)))
+        if not ln.lstrip().startswith('//') and re.match(r'\s*(?:pub\s+)?(?:impl\b|trait\b).*\{\s*(?://.*)?$', ln):
+            hdr_ = ln.strip()
+        m = re.match(r'\s*//@fn\s+pub trait\s+(\w+)\s*::\s*(\w+)\b', ln)
+        if m and hdr_.startswith('impl'):
+            TRAIT_DEFAULTS_AT_TYPE.add((m.group(1), m.group(2), type_of_header(hdr_)))
     return out
 
 
@@ -361,6 +369,7 @@ REWRITES_DOC = {
     'R21': 'state-passing form of an `FnMut` closure that assigns one captured local (Verus has no closures capturing `&mut`): callee variant `F: FnMut(A) -> R` -> `F: Fn(A, S) -> (R, S)` with `verif_st: &mut S` and every call `f(X)` -> `({ let verif_sp = f(X, *verif_st); *verif_st = verif_sp.1; verif_sp.0 })`; caller `x.g(|p| { B })` -> `x.g_st(|p, verif_st_in: S| { let mut V = verif_st_in; B }, &mut V)` with `return E;` -> `return (E, V);` (the classical translation: the closure reads and writes V only through the threaded value, the callee stores it back after every call)',
     'R22': 'a trait impl that no longer defines a method under contract: the PROVIDED method of the trait declaration is verified in its place, with Self = the implementing type (what Rust runs when an override is removed)',
     'R23': 'a type that no longer implements Drop: the drop glue (the fields that implement Drop in this crate are dropped in declaration order) is written out and verified against the contract stated for dropping the type',
+    'R24': 'a NEW override of a provided trait method inside a trait impl of the unit: woven as it is and verified against the contract the model trait states for that method (Verus checks every method of an impl against the trait contract)',
     'R15': 'fully qualified `std::cmp::f` / `core::cmp::f` -> `cmp::f` (the path through the crate\'s own `use std::cmp;`; both name the function the model module cmp declares)',
     'R8': 'struct fields widened to pub inside the unit',
     'R1': 'doc comments / #[inline] / derives dropped',
@@ -668,6 +677,27 @@ def closure_head_at(text, pos):
     return ch not in ')]}"\'?'
 
 
+def new_impl_fns(rel, container, names):
+    """the functions of an impl block that the tree the proofs were written for did not have (specs/anchors.lock, `|impl-fn-names`)"""
+    want = anchor_lock().get('%s:%s|impl-fn-names' % (rel, container))
+    if want is None:
+        return []
+    old_ = want.split(',') if want else []
+    return [n for n in names if n not in old_]
+
+
+def type_of_header(hdr):
+    """the implementing type of an impl header: `impl<'a> Access<'a> for IntVector` / `impl IntVector {` -> IntVector"""
+    h = re.sub(r'\{\s*(//.*)?$', '', hdr).strip()
+    h = re.sub(r'\bwhere\b.*$', '', h).strip()
+    if ' for ' in h:
+        h = h.rsplit(' for ', 1)[1]
+    else:
+        h = re.sub(r'^impl\s*(<[^>]*>)?\s*', '', h)
+    m = re.match(r'\s*(?:[a-z_]+::)*([A-Za-z_][A-Za-z0-9_]*)', h)
+    return m.group(1) if m else ''
+
+
 def weave_fn(src, container, name, nth, opts, subs, mode, sig_only=False):
     """returns (woven_text, record)"""
     impl_src = src
@@ -736,15 +766,27 @@ def weave_fn(src, container, name, nth, opts, subs, mode, sig_only=False):
         rewrites['R22'] = 1
     if r23:
         rewrites['R23'] = 1
-    if container.startswith('impl') and ' for ' in container and not sig_only and not r23:
+    if container.startswith('impl') and ' for ' in container and not sig_only and not r23 and not opts.get('_extras_ok'):
         # a TRAIT impl block under contract: the number of functions it defines is locked.  A new override of a provided trait method
         # (`fn nth` next to `fn next`) would run instead of the default the contracts assume, and no obligation would be generated for it
         nfn = 0
+        names_ = []
         for (o_, c_) in impl_src.containers(container):
             for s_, e_ in impl_src.finditer_code(r'(?<![A-Za-z0-9_])fn\s+[A-Za-z0-9_]+', o_ + 1, c_):
                 if impl_src.depth_at(s_, o_ + 1) == 0:
                     nfn += 1
-        check_anchor('%s:%s|impl-fns' % (os.path.relpath(impl_src.path, getattr(impl_src, 'root', os.path.dirname(impl_src.path))), container), nfn)
+                    names_.append(re.search(r'fn\s+([A-Za-z0-9_]+)', impl_src.text[s_:e_]).group(1))
+        rel_ = os.path.relpath(impl_src.path, getattr(impl_src, 'root', os.path.dirname(impl_src.path)))
+        ANCHOR_SEEN['%s:%s|impl-fn-names' % (rel_, container)] = ','.join(sorted(names_))
+        new_ = new_impl_fns(rel_, container, names_)
+        tm_ = re.match(r"impl\s*(?:<[^>]*>\s*)?([A-Za-z_][A-Za-z0-9_]*)", container)
+        ty_ = type_of_header(container)
+        if new_ and tm_ and all((tm_.group(1), n_, ty_) in TRAIT_DEFAULTS_AT_TYPE for n_ in new_):
+            # every new function overrides a provided trait method that the templates weave for this very type: the override is verified in
+            # its place (R24), nothing runs without a contract
+            ANCHOR_SEEN['%s:%s|impl-fns' % (rel_, container)] = nfn
+        else:
+            check_anchor('%s:%s|impl-fns' % (rel_, container), nfn)
     pre_ = raw
     if any(kind == 'checked_index_total' for kind, arg, lines in subs):
         pre_, k0_ = rw_checked_index(raw)
@@ -1501,6 +1543,8 @@ class Unit:
         i = 0
         skipping = False
         plain = []
+        block_hdr = ''
+        pending_blocks = []
 
         def flush():
             if plain:
@@ -1516,6 +1560,20 @@ class Unit:
             if not m:
                 if not skipping:
                     plain.append(ln)
+                    if re.match(r'\s*(?:pub\s+)?(?:impl\b|trait\b|pub trait\b).*\{\s*(?://.*)?$', ln):
+                        block_hdr = ln.strip()
+                    if pending_blocks and re.match(r'^\s{0,4}\}\s*$', ln):
+                        # the impl block that was open when a sub-trait override was found is closed: its sub-trait block follows
+                        flush()
+                        for (hdr_, xt_, xr_, xl_, src2_) in pending_blocks:
+                            self.emit('    ' + hdr_ + ' {')
+                            xr_['unit_line'] = len(self.out) + 2
+                            self.emit('// extracted from %s:%d (R24: a new override, verified against the contract of the model sub-trait)' % (src2_, xr_['line']))
+                            self.emit(xt_, xl_, src2_)
+                            xr_['unit_end_line'] = len(self.out)
+                            self.fns.append(xr_)
+                            self.emit('    }')
+                        del pending_blocks[:]
                 i += 1
                 continue
             flush()
@@ -1598,6 +1656,85 @@ class Unit:
                         if subs:
                             subs[-1][2].append(lines[i])
                     i += 1
+                # R24: the impl block of the source defines MORE methods than the template has contracts for: a new override of a provided
+                # trait method.  Inside a trait impl of the unit (the model trait carries the contracts of its provided methods, and Verus checks
+                # every method of an impl against the trait's contract) the new override is woven as it is, next to the others: it is then
+                # verified against the contract of the method it overrides.  A method the model trait does not have is a type error (the unit is
+                # undecided, as before); in a block of inherent functions (R4b) the function count stays locked
+                # R24 (continued): the template weaves the PROVIDED method of a trait at a type (`//@fn pub trait Access :: get_or` inside
+                # `impl IntVector {`, R4b) and the type's impl of that trait now overrides the method: the override is what runs, it is woven
+                # in place of the provided method and verified against the same contract
+                src_over = None
+                mt_ = re.match(r'pub trait\s+(\w+)$', container)
+                if d == 'fn' and mt_ and block_hdr.lstrip().startswith('impl') and not opts.get('rename'):
+                    ty_ = type_of_header(block_hdr)
+                    import glob as glob_
+                    rx_ = re.compile(r"impl\s*(?:<[^>{]*>\s*)?" + re.escape(mt_.group(1)) + r"\s*(?:<[^>{]*>\s*)?for\s+" + re.escape(ty_) + r"\s*(?:<[^>{]*>\s*)?(?=\{|where)")
+                    for p_ in sorted(glob_.glob(os.path.join(self.repo, 'src', '**', '*.rs'), recursive=True)):
+                        rel_ = os.path.relpath(p_, self.repo)
+                        if rel_.endswith('tests.rs') or '/tests/' in rel_:
+                            continue
+                        t_ = self.source(rel_)
+                        for s_, e_ in t_.finditer_code(rx_.pattern):
+                            hdr_ = t_.text[s_:e_].strip()
+                            try:
+                                t_.find_fn(hdr_, name, 1)
+                            except Lost:
+                                continue
+                            src_over = (rel_, hdr_)
+                            break
+                        if src_over:
+                            break
+                if src_over:
+                    keep_src = cur_src
+                    cur_src, container = src_over
+                    opts = dict(opts, _extras_ok='1', _r24='1')
+                xkey = (cur_src, container, self.name, template)
+                if (d == 'fn' and mode == 'verify' and container.startswith('impl') and ' for ' in container and ' for ' in block_hdr
+                        and block_hdr.lstrip().startswith('impl') and xkey not in getattr(self, 'extras_done', set()) and not opts.get('rename')):
+                    self.extras_done = getattr(self, 'extras_done', set()) | {xkey}
+                    src_ = self.source(cur_src)
+                    have_ = set()
+                    for ln_ in lines:
+                        md_ = DIRECTIVE.match(ln_)
+                        if md_ and md_.group(1) in ('fn', 'sig') and '::' in md_.group(2):
+                            c_, r_ = md_.group(2).rsplit('::', 1)
+                            if c_.strip() == container:
+                                have_.add(r_.split()[0])
+                    extra_ = []
+                    try:
+                        for (o_, c_) in src_.containers(container):
+                            for s_, e_ in src_.finditer_code(r'(?<![A-Za-z0-9_])fn\s+([A-Za-z0-9_]+)', o_ + 1, c_):
+                                if src_.depth_at(s_, o_ + 1) == 0:
+                                    nm_ = re.search(r'fn\s+([A-Za-z0-9_]+)', src_.text[s_:e_]).group(1)
+                                    if nm_ not in have_:
+                                        extra_.append(nm_)
+                    except Lost:
+                        extra_ = []
+                    newn_ = new_impl_fns(cur_src.split(' !')[0], container, sorted(have_) + extra_)
+                    extra_ = [n_ for n_ in extra_ if n_ in newn_]
+                    if extra_:
+                        for nm_ in extra_:
+                            xt_, xr_, xl_ = weave_fn(src_, container, nm_, 1, {'props': opts.get('props', ''), '_extras_ok': '1'}, [], mode)
+                            xr_['file'] = cur_src
+                            xr_['unit'] = self.name
+                            xr_['rewrites'] = dict(xr_['rewrites'], R24=1)
+                            xr_['new_override'] = True
+                            sub_ = {('Iterator', 'nth'): 'IteratorNth', ('DoubleEndedIterator', 'nth_back'): 'DoubleEndedIteratorNth'}
+                            mt2_ = re.match(r"(impl\s*(?:<[^>]*>\s*)?)([A-Za-z_][A-Za-z0-9_]*)(.*)$", container)
+                            if mt2_ and (mt2_.group(2), nm_) in sub_:
+                                # R4a: the model keeps `nth` / `nth_back` in a sub-trait (a provided method cannot be overridden with a stronger
+                                # contract in Verus): the override goes into an impl block of that sub-trait, after the current block
+                                pending_blocks.append((mt2_.group(1) + sub_[(mt2_.group(2), nm_)] + mt2_.group(3), xt_, xr_, xl_, cur_src))
+                                continue
+                            xr_['unit_line'] = len(self.out) + 2
+                            self.emit('// extracted from %s:%d (R24: a new override, verified against the contract of the trait method)' % (cur_src, xr_['line']))
+                            self.emit(xt_, xl_, cur_src)
+                            xr_['unit_end_line'] = len(self.out)
+                            self.fns.append(xr_)
+                        self.extras_ok = getattr(self, 'extras_ok', set()) | {(cur_src, container)}
+                if (cur_src, container) in getattr(self, 'extras_ok', set()):
+                    opts = dict(opts, _extras_ok='1')
                 try:
                     text, rec, lmap = weave_fn(self.source(cur_src), container, name, nth, opts, subs, mode, sig_only=(d == 'sig'))
                 except Undecided as e_:
@@ -1613,10 +1750,14 @@ class Unit:
                 rec['file'] = cur_src
                 rec['unit'] = self.name
                 rec['unit_line'] = len(self.out) + 2
+                if src_over:
+                    rec['rewrites'] = dict(rec['rewrites'], R24=1)
                 self.emit('// extracted from %s:%d' % (cur_src, rec['line']))
                 self.emit(text, lmap, cur_src)
                 rec['unit_end_line'] = len(self.out)
                 self.fns.append(rec)
+                if src_over:
+                    cur_src = keep_src
             else:
                 raise Undecided('unknown directive //@%s in %s' % (d, template))
         flush()
